@@ -46,9 +46,24 @@ WIRE_STATUS = (True, 'not run')
 WIRE_PROPS = ('C01', 'C02', 'C03', 'C04', 'C05', 'C06', 'C07', 'C08', 'C11')      # properties whose <prop>T module is about Generated/TranslatedWire.lean (tools/c2lean_wire.py)
 
 
-# which translated functions a property's <prop>T module is about (a function of another group leaving the subset is not this property's business)
-WIRE_GROUPS = {'C11': ('derive_session_event', 'mac_equal'), 'C05': ('mapper_matches', 'set_active_mapper', 'compareEthernetAddress')}
+# which translated functions a property's <prop>T module is about: a function of another group leaving the subset is not this
+# property's business (a harmless rewrite of an unused TLV writer must not be reported under eight properties)
+W_ENDIAN = ('lltd_bswap16', 'lltd_bswap32', 'lltd_is_little_endian', 'lltd_htons', 'lltd_ntohs', 'lltd_htonl', 'lltd_ntohl')
+W_HDR = ('setLltdHeader', 'setLltdHeaderEx', 'setHelloHeader', 'compareEthernetAddress')
+W_HELLO = ('setHostIdTLV', 'setCharacteristicsTLV', 'setPhysicalMediumTLV', 'setIPv4TLV', 'setIPv6TLV', 'setPerfCounterTLV', 'setLinkSpeedTLV',
+           'setHostnameTLV', 'setWirelessTLV', 'setBSSIDTLV', 'setSSIDTLV', 'setWifiMaxRateTLV', 'setWifiRssiTLV', 'setQosCharacteristicsTLV',
+           'setIconImageTLV', 'setFriendlyNameTLV', 'setEndOfPropertyTLV')
+W_OTHER_TLV = ('setSupportInfoTLV', 'setUuidTLV', 'setHardwareIdTLV', 'set80211MediumTLV')      # translated, but no frame of the model and no theorem uses them: nobody's obligation
 WIRE_LINUX = ('lltd_port_get_mtu', 'lltd_port_get_mac_address', 'lltd_port_get_characteristics_flags', 'lltd_port_get_if_type', 'lltd_port_get_link_speed_100bps')
+WIRE_FUNCS = {
+    'C01': W_ENDIAN + W_HELLO,
+    'C02': W_ENDIAN + W_HDR + W_HELLO,
+    'C03': W_ENDIAN + W_HDR + W_HELLO,
+    'C04': W_ENDIAN + W_HDR + W_HELLO + WIRE_LINUX,
+    'C05': ('mapper_matches', 'set_active_mapper', 'compareEthernetAddress'),
+    'C06': W_ENDIAN + W_HDR, 'C07': W_ENDIAN + W_HDR, 'C08': W_ENDIAN + W_HDR,
+    'C11': W_ENDIAN + ('derive_session_event', 'mac_equal'),
+}
 WIRE_FAILED = {}
 
 
@@ -57,8 +72,7 @@ def translate_status(prop):
         return TRANSLATE_STATUS
     if not WIRE_STATUS[0]:
         return WIRE_STATUS
-    special = set(f for fs in WIRE_GROUPS.values() for f in fs) | set(WIRE_LINUX)      # the Linux port's getters are C04's business only
-    mine = [f for f in WIRE_FAILED if (f in WIRE_GROUPS[prop] if prop in WIRE_GROUPS else (f not in special or (prop == 'C04' and f in WIRE_LINUX)))]
+    mine = [f for f in WIRE_FAILED if f in WIRE_FUNCS.get(prop, ())]
     if mine:
         return (False, 'c2lean_wire: %s left the translatable subset: %s' % (', '.join(sorted(mine)), '; '.join(WIRE_FAILED[f] for f in sorted(mine))))
     return WIRE_STATUS
